@@ -185,6 +185,15 @@ class CRSDHeader(CRSDHeaderBase):
         """
         Forms a CRSD file header string (not including the section terminator) from populated attributes.
         """
+
+        for fld in self._fields:
+            val = getattr(self, fld)
+            if val is not None and '\n' in str(val):
+                # NB: the header is a sequence of `KEY := VALUE` lines, a value which
+                #   contains a line break can not be represented
+                raise ValueError(
+                    'The CRSD header field {} can not hold a value containing a '
+                    'line feed character, got {!r}'.format(fld, val))
         return ('CRSD/{}\n'.format(self.use_version)
                 + ''.join(["{} := {}\n".format(f, getattr(self, f))
                            for f in self._fields if getattr(self, f) is not None]))
